@@ -361,7 +361,7 @@ shape (any number of channels, samples, bursts, word lengths), every record leng
 `start < stop ≤ n` with any step (and `None`), every earlier frame set: the load succeeds and row `i` of the matrix holds
 exactly the words of all channels of frame `start + i·step`, read from the record bytes.
 
-Exact gap to the full statement:
+Exact gap to the full statement (the first item is closed by `setFrameSet_values_allchannels_partial` below):
 * more than one data record — the per-record block is already proved for an arbitrary position in the matrix
   (`block_exec_all`: any `frInt`, any arithmetic progression of offsets inside the record); missing is the grouping of
   `_retFrameSetMap` (frames → consecutive per-record buffers, `sorted` keeps record order) and the induction over the
@@ -468,8 +468,9 @@ frames-per-record pattern incl. short last and empty records), channel list `Non
 count (any step, or `None`) and every earlier frame set: the load succeeds and row `i` of the matrix is `frameRow` of
 frame `start + i·step` — the words of all channels read from the record that holds the frame (`locate`, i.e. by
 `rle_lookup` what `RLEType01.tellLrForFrame` finds) at the frame's offset.
-Remaining gap to `setFrameSet_values`: proper channel subsets (see `setFrameSet_values_subset_partial` if present /
-the section comment above). -/
+Remaining gap to `setFrameSet_values`: proper channel subsets — `events_cover` proves which bytes are read; missing is
+the labelling of every read event with a contiguous run `(chFrom, chTo)` of the selected channels and the matching
+`setFrameBytes` writes (covered by `setFrameSet_values_witness`, the correspondence run and the oracle). -/
 theorem setFrameSet_values_allchannels_partial
     (d : Dfsr) (k : Nat) (rle : List Item01) (st : Store) (fsOld : Option FrameSet) (sl : Option Sl)
     (hrm : d.recMode = 0) (hk : d.chans.length = k + 1) (hok : d.sizesOk)
